@@ -887,11 +887,16 @@ where
     /// world.clear();
     /// ```
     pub fn clear(&mut self) {
+        let previously_free = self.entity_allocator.free.len();
         // SAFETY: `self.entity_allocator` contains entries for the entities stored in this world's
         // archetypes.
         unsafe {
             self.archetypes.clear(&mut self.entity_allocator);
         }
+        // The archetypes are visited in an arbitrary order. Sort the newly released indices, so
+        // that the order in which they are reused does not depend on it. Otherwise, a
+        // deserialized (or cloned) world could issue different identifiers than the original.
+        self.entity_allocator.free.make_contiguous()[previously_free..].sort_unstable();
         self.len = 0;
     }
 
